@@ -1,7 +1,9 @@
 import Driver.SelOut
 import Driver.Route
+import Driver.Api
 def main (args : List String) : IO UInt32 := do
   match args with
   | ["selout"] => Driver.SelOut.run; return 0
   | ["route"] => Driver.Route.run; return 0
+  | ["api"] => Driver.Api.run; return 0
   | _ => IO.eprintln s!"pmodel: unknown sub-command {args}"; return 2
